@@ -13,5 +13,5 @@ for f in replays/$prop/*.json; do
   echo "replay $(basename $f) rc=$rc $(grep -m1 fingerprint "$d/r.txt" | cut -c1-120)"
 done
 # and on the unchanged tree the same files must not reproduce
-for f in $(ls replays/$prop/*.json | head -2); do ./check $prop --replay "$f" > "$d/r.txt" 2>&1; echo "replay on unchanged tree $(basename $f) rc=$?"; done
+for f in $(ls replays/$prop/*.json | head -2); do ./check $prop --replay "$f" > "$d/r.txt" 2>&1; echo "replay on unchanged tree $(basename $f) rc=$? (0 = not reproduced, 2 = the recorded execution does not exist there; never 1)"; done
 rm -rf "$d"
